@@ -159,7 +159,7 @@ func (e *Exec) streamRun(fr *Frame, st *BState, x *ssa.Call) SV {
 	// init
 	for i, inv := range invs {
 		env := e.specEnv(fr, st, nil)
-		e.obligeNamed(st, fmt.Sprintf("stream%d.%s.init", ord, clauseLabel(inv, "inv", i)), x.Pos(), scal(env.eval(inv.Expr)))
+		e.obligeNamed(st, fmt.Sprintf("stream%d.%s.init", ord, clauseLabel(inv, "inv", i)), x.Pos(), scal(env.evalGoal(inv.Expr)))
 	}
 	// havoc what the callbacks may write + ghost traces
 	keys := map[string]bool{}
@@ -272,7 +272,7 @@ func (e *Exec) streamRun(fr *Frame, st *BState, x *ssa.Call) SV {
 				env := e.specEnv(fr, out, nil)
 				env.oldSt = post
 				env.bound["stepErr"] = errv
-				e.obligeNamed(out, fmt.Sprintf("stream%d.step[%s].%s", ord, inTrace, strings.TrimPrefix(clauseLabel(sc, "step", i)[len("step"):], ".")), token.NoPos, scal(env.eval(sc.Expr)))
+				e.obligeNamed(out, fmt.Sprintf("stream%d.step[%s].%s", ord, inTrace, strings.TrimPrefix(clauseLabel(sc, "step", i)[len("step"):], ".")), token.NoPos, scal(env.evalGoal(sc.Expr)))
 			}
 		}
 		// back edge: invariant preserved
@@ -280,7 +280,7 @@ func (e *Exec) streamRun(fr *Frame, st *BState, x *ssa.Call) SV {
 		bs.reach = and(out.reach, not(isErr))
 		for i, inv := range invs {
 			env := e.specEnv(fr, bs, nil)
-			e.obligeNamed(bs, fmt.Sprintf("stream%d.%s.preserved[%s]", ord, clauseLabel(inv, "inv", i), inTrace), token.NoPos, scal(env.eval(inv.Expr)))
+			e.obligeNamed(bs, fmt.Sprintf("stream%d.%s.preserved[%s]", ord, clauseLabel(inv, "inv", i), inTrace), token.NoPos, scal(env.evalGoal(inv.Expr)))
 		}
 		// exit with the callback's error (wrapped): result non-nil
 		xs := out.clone()
